@@ -10,8 +10,10 @@
    (d) through the record store: a fresh discoverer (its own `service PTR instance` registered, as ServiceDiscovery::new
        does) that ingests the parsed announcement reports, from get_known_services, exactly the advertised instance at
        every instant before the TTL has elapsed and nothing afterwards.
-   PARTIAL: sequences of announcements from several peers and re-announcements (interleaving of owners inside the trie,
-   HashMap iteration order) are covered by the DISC slice only. Property theorems only. *)
+   (e) any number of different peers: after their announcements, in any order and at any times, get_known_services lists
+       exactly the peers whose TTL has not elapsed, each as advertised.
+   PARTIAL: re-announcements of an instance already heard (HashMap key retention, iteration order of merged record sets)
+   are covered by the DISC slice only. Property theorems only. *)
 Require Import SD.Base SD.Codes SD.Header SD.HeaderProofs SD.Name SD.RData SD.Packet SD.RoundTrip SD.TextApi SD.TextApiProofs
   SD.Store SD.DiscoveryProofs SD.DiscoveryStore.
 
@@ -37,6 +39,13 @@ Theorem C15_end_to_end : forall i service inst me ttl0 ttl h recs now now',
     if now' <? now + 2 * ttl then [{| i_name := inst; i_ips := i_ips i; i_ports := i_ports i; i_attrs := rev (i_attrs i) |}] else [].
 Proof. exact discovery_end_to_end. Qed.
 Print Assumptions C15_end_to_end.
+
+Theorem C15_several_peers : forall service me ttl0 peers now',
+  NoDup (map p_inst peers) -> Forall peer_ok peers ->
+  known_services (receive_all service peers (fresh_store service me ttl0)) service now' =
+  List.concat (map (fun p => if now' <? p_now p + 2 * p_ttl p then [peer_instance p] else []) peers).
+Proof. exact known_after_announcements. Qed.
+Print Assumptions C15_several_peers.
 
 Theorem C15_ingest_filter : forall service me p r,
   In r (ingest_filter service me p) <->
